@@ -20,6 +20,8 @@ import (
 	corev1 "k8s.io/api/core/v1"
 	"k8s.io/client-go/tools/cache"
 	"k8s.io/klog/v2"
+
+	"github.com/koordinator-sh/koordinator/apis/extension"
 )
 
 // todo the eventHandler's operation should be a complete transaction in the future work.
@@ -54,6 +56,11 @@ func (g *Plugin) OnPodUpdate(oldObj, newObj interface{}) {
 
 	oldQuotaName, oldTree := g.getPodAssociateQuotaNameAndTreeID(oldPod)
 	newQuotaName, newTree := g.getPodAssociateQuotaNameAndTreeID(newPod)
+	if oldQuotaName != "" && oldQuotaName != extension.DefaultQuotaName && g.isPodParkedInDefaultQuota(oldPod) {
+		// the pod was added before its quota existed and the periodic migration has not moved it yet: it is still
+		// accounted in the default quota group, so that is where it has to be taken from
+		oldQuotaName, oldTree = extension.DefaultQuotaName, ""
+	}
 
 	if oldTree == newTree {
 		mgr := g.GetGroupQuotaManagerForTree(newTree)
@@ -119,6 +126,10 @@ func (g *Plugin) handlePodDelete(pod *corev1.Pod) {
 	if quotaName == "" {
 		return
 	}
+	if quotaName != extension.DefaultQuotaName && g.isPodParkedInDefaultQuota(pod) {
+		// see OnPodUpdate: the pod is still accounted in the default quota group
+		quotaName, treeID = extension.DefaultQuotaName, ""
+	}
 
 	mgr := g.GetGroupQuotaManagerForTree(treeID)
 	if mgr != nil {
@@ -127,4 +138,11 @@ func (g *Plugin) handlePodDelete(pod *corev1.Pod) {
 	} else {
 		klog.Errorf("OnPodDeleteFunc %v delete failed, quota: %v, tree: %v", klog.KObj(pod), quotaName, treeID)
 	}
+}
+
+// isPodParkedInDefaultQuota tells whether the pod is accounted in the default quota group. A pod that names a quota
+// which did not exist when the pod arrived is kept there until migrateDefaultQuotaGroupsPod moves it.
+func (g *Plugin) isPodParkedInDefaultQuota(pod *corev1.Pod) bool {
+	defaultQuotaInfo := g.groupQuotaManager.GetQuotaInfoByName(extension.DefaultQuotaName)
+	return defaultQuotaInfo != nil && defaultQuotaInfo.IsPodExist(pod)
 }
